@@ -110,6 +110,7 @@ theorem nextAt_rest_cut (d : ByteArray) (fuel : Nat) :
         rw [ih (d.extract (BS - H) d.size) _ (block+1) (k - BS) r hsz
           (by simp [ByteArray.size_extract]; omega) (by simp [ByteArray.size_extract]; omega)
           (by omega) (by omega)]
+        rfl
 
 /-- every strict prefix of the chunks of one record (first chunk at (block, off)) reads as end of
     file -/
@@ -152,6 +153,7 @@ theorem nextAt_rec_cut (d pre : ByteArray) (block off k rf : Nat)
       rw [nextAt_rest_cut C (d.extract (BS - off - H) d.size) d.size _ (block+1) (k - (BS - off)) r hsz
         (by simp [ByteArray.size_extract]; omega) (by simp [ByteArray.size_extract])
         (by omega) (by omega)]
+      rfl
 
 /-! ## the writer's bytes for one record, cut short -/
 
@@ -379,10 +381,13 @@ theorem recover_truncate (fid : Nat) (ds : List ByteArray) (hpos : ∀ d ∈ ds,
 Every reader except the one `loadIndexFromDataFiles` creates for the active file is strict.  For a
 strict reader an incomplete chunk at the end of the file is corruption unless only zeros follow.
 The statements below mirror the `_cut` lemmas above.  Three kinds of cut leave NO incomplete chunk
-behind and therefore still read as end of file for both readers (they are covered by the `_cut`
-lemmas for `tol = true`, and excluded by hypothesis here): a cut at a record boundary, a cut inside
-the zero padding in front of a record, and a cut at a block boundary between two chunks of a
-multi-chunk record (the next block does not exist: `off >= fileSize` in `DataReader.next`). -/
+behind and are excluded by hypothesis here.  Two of them still read as end of file for both readers
+(covered by the `_cut` lemmas for `tol = true`): a cut at a record boundary and a cut inside the
+zero padding in front of a record.  The third, a cut at a block boundary between two chunks of a
+multi-chunk record (the next block does not exist: `off >= fileSize` in `DataReader.next`), is an
+ERROR for the strict reader too (`endOfLog` with `cnt > 0`); it is proved in
+`Proofs/TruncateBoundary.lean` (`scan_truncate_boundary`), which also combines both cases into
+`scan_truncate_strict'` without the hypothesis `n % BS ≠ 0`. -/
 
 /-- strict reader: a chunk cut strictly short with at least one byte present, whose present bytes are
     not all zero, is an error -/
